@@ -211,8 +211,9 @@ func hasBig(v any) bool {
 // descending order like writeDoc.
 func writeSEN(v any, reverse bool, spell int) string {
 	var sb strings.Builder
-	str := func(s string) {
-		bare := len(s) > 0 && s != "true" && s != "false" && s != "null"
+	str := func(s string, key bool) {
+		// a member name spelled like a literal is written bare, as sen.String writes it
+		bare := len(s) > 0 && (key || (s != "true" && s != "false" && s != "null"))
 		plain := utf8.ValidString(s)
 		for i := 0; i < len(s); i++ {
 			b := s[i]
@@ -252,7 +253,7 @@ func writeSEN(v any, reverse bool, spell int) string {
 				if i > 0 {
 					sb.WriteByte(' ')
 				}
-				str(k)
+				str(k, true)
 				sb.WriteString(": ")
 				w(tv[k])
 			}
@@ -267,7 +268,7 @@ func writeSEN(v any, reverse bool, spell int) string {
 			}
 			sb.WriteByte(']')
 		case string:
-			str(tv)
+			str(tv, false)
 		case json.Number:
 			sb.WriteString(string(tv)) // the writers would quote it
 		case float64:
@@ -752,6 +753,26 @@ func drawCase(t *rapid.T) Case {
 		if _, ok2 := doc.(map[string]any); !ok2 {
 			doc = map[string]any{"a": doc, "b": jpx.DrawData(t, 3), "c": []any{jpx.DrawData(t, 2), jpx.DrawData(t, 2)}}
 		}
+	}
+	if rapid.IntRange(0, 5).Draw(t, "literalkey") == 0 {
+		// a member named like a literal (the SEN writers write such a name bare)
+		name := rapid.SampledFrom([]string{"null", "true", "false"}).Draw(t, "literalname")
+		var add func(v any) bool
+		add = func(v any) bool {
+			switch tv := v.(type) {
+			case map[string]any:
+				tv[name] = int64(len(tv))
+				return true
+			case []any:
+				for _, e := range tv {
+					if add(e) {
+						return true
+					}
+				}
+			}
+			return false
+		}
+		add(doc)
 	}
 	cs := Case{Indent: rapid.SampledFrom([]int{0, 0, 2}).Draw(t, "indent")}
 	n := rapid.IntRange(1, 3).Draw(t, "ntargets")
